@@ -88,15 +88,16 @@ Refresh ==
 
 BadRegs == {<<-1, 0>>, <<0, 0>>, <<CHOOSE m \in RegMasks : TRUE, 1>>, <<CHOOSE m \in RegMasks : TRUE, 1073741824>>}
 
-\* exhaustive search: every step of the alphabet
-Step == \/ \E m \in RegMasks, fe \in Forced, ia \in 0 .. Len(InfoArrs) : Register(m, fe, ia)
-        \/ \E b \in BadRegs : RegisterBad(b[1], b[2])
-        \/ \E m \in ResMasks : Restrict(m)
-        \/ \E v \in {0, 1} : Dup(v) \/ Xml(v)
-        \/ Refresh
+\* exhaustive search (SimLen = 0): every step of the alphabet, one TLC action per entry point
+RegisterA    == SimLen = 0 /\ \E m \in RegMasks, fe \in Forced, ia \in 0 .. Len(InfoArrs) : Register(m, fe, ia)
+RegisterBadA == SimLen = 0 /\ \E b \in BadRegs : RegisterBad(b[1], b[2])
+RestrictA    == SimLen = 0 /\ \E m \in ResMasks : Restrict(m)
+DupA         == SimLen = 0 /\ \E v \in {0, 1} : Dup(v)
+XmlA         == SimLen = 0 /\ \E v \in {0, 1} : Xml(v)
+RefreshA     == SimLen = 0 /\ Refresh
 
-\* random walks (-simulate): the step and its arguments are drawn with RandomElement, so that TLC builds one to four
-\* successors per state instead of the whole alphabet and registrations do not crowd out the other steps
+\* random walks (-simulate, SimLen > 0): the step and its arguments are drawn with RandomElement, so that TLC builds one
+\* to four successors per state instead of the whole alphabet and registrations do not crowd out the other steps
 SimStep ==
   \/ \E m \in {RandomElement(RegMasks)}, fe \in {RandomElement(Forced)}, ia \in {RandomElement(0 .. Len(InfoArrs))} : Register(m, fe, ia)
   \/ \E c \in {RandomElement(1 .. 100)} : c <= 45 /\ \E m \in {RandomElement(ResMasks)} : Restrict(m)
@@ -105,11 +106,11 @@ SimStep ==
         \/ v \in {2, 3} /\ Xml(v - 2)
         \/ v = 4 /\ Refresh
   \/ \E c \in {RandomElement(1 .. 100)} : c <= 12 /\ \E b \in {RandomElement(BadRegs)} : RegisterBad(b[1], b[2])
-
+SimA == SimLen > 0 /\ Len(hist) < SimLen /\ SimStep
 \* a walk stops at SimLen steps; its history is printed once, when TLC asks for the successors of its last state
-Next == IF SimLen = 0 THEN Step
-        ELSE \/ Len(hist) < SimLen /\ SimStep
-             \/ Len(hist) = SimLen /\ PrintT(<<"SIM", ToJson(hist)>>) /\ FALSE /\ UNCHANGED vars
+SimEndA == SimLen > 0 /\ Len(hist) = SimLen /\ PrintT(<<"SIM", ToJson(hist)>>) /\ FALSE /\ UNCHANGED vars
+
+Next == RegisterA \/ RegisterBadA \/ RestrictA \/ DupA \/ XmlA \/ RefreshA \/ SimA \/ SimEndA
 
 Spec == Init /\ [][Next]_vars
 
